@@ -63,6 +63,7 @@ inline std::string render_val(const c19_val& v) {
 struct Program {
     std::vector<c19_op> ops;
     int nbody = -1;                    // ops [0,nbody) are the test body, [nbody,size) the teardown
+    c19_nest_cfg nest = {0, 0, 0};     // which callbacks of the re-entrant type R make a nested mocked call
     c19_op& add(int code, const char* scope = nullptr, const char* name = nullptr) {
         c19_op o; memset(&o, 0, sizeof o); o.code = code; o.scope = scope; o.name = name; o.v.kind = -1;
         ops.push_back(o); return ops.back();
@@ -127,8 +128,8 @@ inline std::string render_op(const c19_op& o) {
     case C19_LEFT: return m + "expectedCallsLeft";
     case C19_CLEAR: return m + "clear";
     case C19_CRASHONFAIL: return m + vf::fmt("crashOnFailure(%u)", o.n);
-    case C19_INSTALL_CMP: return m + "installComparator(" + q(o.type) + (o.n ? ",U-functions)" : ",T-functions)");
-    case C19_INSTALL_CPY: return m + "installCopier(" + q(o.type) + (o.n ? ",U-copy)" : ",T-copy)");
+    case C19_INSTALL_CMP: return m + "installComparator(" + q(o.type) + (o.n == 2 ? ",re-entrant R-functions)" : o.n ? ",U-functions)" : ",T-functions)");
+    case C19_INSTALL_CPY: return m + "installCopier(" + q(o.type) + (o.n == 2 ? ",re-entrant R-copy)" : o.n ? ",U-copy)" : ",T-copy)");
     case C19_REMOVE_ALL: return m + "removeAllComparatorsAndCopiers";
     case C19_E_PARAM: return " .withParameter(" + q(o.name) + "," + (o.type ? q(o.type) + "," : std::string()) + render_val(o.v) + ")";
     case C19_E_OUT: return " .withOutputParameterReturning(" + q(o.name) + "," + sym(o.v.p) + vf::fmt(",%zu)", o.v.size);
@@ -148,6 +149,8 @@ inline std::string render_op(const c19_op& o) {
 }
 inline std::string render(const Program& p) {
     std::string s;
+    if (p.nest.in_equal || p.nest.in_tostring || p.nest.in_copy)
+        s = vf::fmt("[R callbacks that call mock(\"n\").actualCall(\"h\").withParameter(\"x\",1).returnIntValueOrDefault(-5):%s%s%s] ", p.nest.in_equal ? " isEqual" : "", p.nest.in_tostring ? " valueToString" : "", p.nest.in_copy ? " copy" : "");
     for (size_t i = 0; i < p.ops.size(); i++) {
         bool first = i == 0;
         if ((int)i == p.nbody) { s += " || teardown: "; first = true; }
@@ -207,8 +210,29 @@ struct CpyObj : MockNamedValueCopier {
     explicit CpyObj(MockTypeCopyFunction_c c) : cp(c) {}
     void copy(void* dst, const void* src) override { cp(dst, src); }
 };
-inline CmpObj g_cmp[2] = {CmpObj(c19_T_equal, c19_T_tostring), CmpObj(c19_U_equal, c19_U_tostring)};
-inline CpyObj g_cpy[2] = {CpyObj(c19_T_copy), CpyObj(c19_U_copy)};
+// re-entrant type R, C++ spelling: the callbacks make their nested call through the C++ interface
+inline void nested_call_cpp(int) { c19_nest_log(mock("n").actualCall("h").withParameter("x", 1).returnIntValueOrDefault(-5)); }
+struct ReCmpObj : MockNamedValueComparator {
+    bool isEqual(const void* a, const void* b) override {
+        if (c19_nest.in_equal) nested_call_cpp(((const c19_T*)a)->key);
+        return ((const c19_T*)a)->key == ((const c19_T*)b)->key;
+    }
+    SimpleString valueToString(const void* a) override {
+        if (c19_nest.in_tostring) nested_call_cpp(((const c19_T*)a)->key);
+        return StringFromFormat("R(key=%d)", ((const c19_T*)a)->key);
+    }
+};
+struct ReCpyObj : MockNamedValueCopier {
+    void copy(void* dst, const void* src) override {
+        if (c19_nest.in_copy) nested_call_cpp(((const c19_T*)src)->key);
+        *(c19_T*)dst = *(const c19_T*)src;
+    }
+};
+inline CmpObj g_cmpT(c19_T_equal, c19_T_tostring), g_cmpU(c19_U_equal, c19_U_tostring);
+inline CpyObj g_cpyT(c19_T_copy), g_cpyU(c19_U_copy);
+inline ReCmpObj g_cmpR; inline ReCpyObj g_cpyR;
+inline MockNamedValueComparator* g_cmp[3] = {&g_cmpT, &g_cmpU, &g_cmpR};
+inline MockNamedValueCopier* g_cpy[3] = {&g_cpyT, &g_cpyU, &g_cpyR};
 
 // ---------------------------------------------------------------- the C++ back end
 inline int tag_of_type(const SimpleString& t) {      // the C type tag that belongs to a C++ value type
@@ -316,8 +340,8 @@ inline void run_cpp(const c19_op* ops, int from, int to, c19_obs* obs, unsigned 
         case C19_LEFT: o->i = support(op).expectedCallsLeft() ? 1 : 0; break;
         case C19_CLEAR: support(op).clear(); break;
         case C19_CRASHONFAIL: support(op).crashOnFailure(op.n != 0); break;
-        case C19_INSTALL_CMP: support(op).installComparator(op.type, g_cmp[op.n ? 1 : 0]); break;
-        case C19_INSTALL_CPY: support(op).installCopier(op.type, g_cpy[op.n ? 1 : 0]); break;
+        case C19_INSTALL_CMP: support(op).installComparator(op.type, *g_cmp[op.n > 2 ? 0 : op.n]); break;
+        case C19_INSTALL_CPY: support(op).installCopier(op.type, *g_cpy[op.n > 2 ? 0 : op.n]); break;
         case C19_REMOVE_ALL: support(op).removeAllComparatorsAndCopiers(); break;
 
         case C19_E_PARAM:
@@ -423,7 +447,8 @@ inline void run_cpp(const c19_op* ops, int from, int to, c19_obs* obs, unsigned 
 struct Result {                       // POD: can live in shared memory
     c19_obs obs[C19_MAXOPS];
     unsigned char out[C19_NSLOTS][C19_SLOTSIZE];
-    int failures, checks, crash_calls, teardown_entered, finished;
+    int failures, checks, crash_calls, teardown_entered, finished, nest_calls;
+    long long nest_sum;
     char text[3000];
 };
 
@@ -447,6 +472,7 @@ inline void execute(const Program& p, bool c_backend, Result& r) {
     for (int s = 0; s < C19_NSLOTS; s++) for (int b = 0; b < C19_SLOTSIZE; b++) r.out[s][b] = (unsigned char)(0xA0 + s);
     reset_library();
     g_crash_calls = 0;
+    c19_nest = p.nest; c19_nest_calls = 0; c19_nest_sum = 0;
     UtestShell::setCrashMethod(crash_recorder);
     const c19_op* ops = p.ops.data(); int nb = p.nbody, n = (int)p.ops.size();
     {
@@ -463,6 +489,8 @@ inline void execute(const Program& p, bool c_backend, Result& r) {
     }
     UtestShell::resetCrashMethod();
     r.crash_calls = g_crash_calls;
+    r.nest_calls = c19_nest_calls; r.nest_sum = c19_nest_sum;
+    c19_nest = c19_nest_cfg{0, 0, 0};
     reset_library();
     r.finished = 1;
 }
@@ -510,6 +538,8 @@ inline Diff compare(const Program& p, const Result& cpp, const Result& c) {
         set("actual.withOutputParameter/output-bytes-differ", "C++ " + a + " C " + b);
     }
     if (cpp.checks != c.checks) vf::count("check_count_differs_not_asserted");     // the property does not speak about the check counter
+    if (!d.any && (cpp.nest_calls != c.nest_calls || cpp.nest_sum != c.nest_sum))
+        set("callback/nested-calls-differ", vf::fmt("nested calls made by the callbacks: C++ %d (checksum %lld), C %d (checksum %lld)", cpp.nest_calls, cpp.nest_sum, c.nest_calls, c.nest_sum));
     if (!d.any && cpp.crash_calls != c.crash_calls) set("crashOnFailure/crash-method-calls-differ", vf::fmt("C++ %d, C %d", cpp.crash_calls, c.crash_calls));
     if (!d.any && cpp.teardown_entered != c.teardown_entered) set("whole-test/teardown-differs", "");
     if (d.any) {
